@@ -1,0 +1,15 @@
+//go:build verif
+// +build verif
+
+package server
+
+// VerifC15ServiceLockHeld reports whether serviceSafePointLock is held at this moment
+// (TryLock probe; read-only for the caller). Used by the C15 verification driver to check that a
+// storage operation of UpdateServiceGCSafePoint is issued inside the locked section.
+func (s *Server) VerifC15ServiceLockHeld() bool {
+	if s.serviceSafePointLock.TryLock() {
+		s.serviceSafePointLock.Unlock()
+		return false
+	}
+	return true
+}
